@@ -316,7 +316,7 @@ def read_ndjson(path):
         return [json.loads(x) for x in f if x.strip()]
 
 
-def _gen(self, name, specdirs, module, cfg, out_path, env=None, timeout=900, simulate=None, depth=None, workers=1):
+def _gen(self, name, specdirs, module, cfg, out_path, env=None, timeout=900, simulate=None, depth=None, workers=1, require=None):
     """Run a generator spec: every line TLC prints that is a quoted JSON object is one case."""
     res = self.tlc(name, specdirs, module, cfg, env=env, workers=workers, timeout=timeout,
                    simulate=simulate, depth=depth)
@@ -337,6 +337,26 @@ def _gen(self, name, specdirs, module, cfg, out_path, env=None, timeout=900, sim
     with open(out_path, "w") as f:
         for s in cases:
             f.write(s + "\n")
+    # a histogram of the generated cases by their discrete top-level fields goes into the evidence: a sub-family that
+    # thinning has emptied shows up as a missing key (and a family may insist on some keys through `require`)
+    hist = {}
+    for s in cases:
+        try:
+            c = json.loads(s)
+        except Exception:
+            continue
+        if not isinstance(c, dict):
+            continue
+        key = [str(c.get("kind", "?"))]
+        for f in ("ml", "sh", "api", "recv", "op", "ta", "tb", "opt", "valid"):
+            if f in c and isinstance(c[f], (str, bool, int)):
+                key.append("%s=%s" % (f, c[f]))
+        k = " ".join(key)
+        hist[k] = hist.get(k, 0) + 1
+    self.extra.setdefault("case_histogram", {})[name] = dict(sorted(hist.items())[:60])
+    for need in (require or []):
+        if not any(need in k for k in hist):
+            raise MachineryError("generator %s emitted no case of the family '%s' (thinned away?)" % (name, need))
     log("  [gen %s] %d cases" % (name, len(cases)))
     return len(cases)
 
